@@ -725,24 +725,16 @@ impl<'a> UserModel<'a> {
             } else {
                 return Ok(());
             };
-        let (selected_row, selected_column, range, top_row, left_column) =
+        let (selected_row, selected_column, top_row, left_column) =
             if let Ok(worksheet) = self.model.workbook.worksheet(sheet) {
                 if let Some(view) = worksheet.views.get(&self.model.view_id) {
-                    (
-                        view.row,
-                        view.column,
-                        view.range,
-                        view.top_row,
-                        view.left_column,
-                    )
+                    (view.row, view.column, view.top_row, view.left_column)
                 } else {
                     return Ok(());
                 }
             } else {
                 return Ok(());
             };
-        let [row_start, column_start, _row_end, _column_end] = range;
-
         let mut new_left_column = left_column;
         if target_column >= selected_column {
             let mut width = 0.0;
@@ -777,7 +769,9 @@ impl<'a> UserModel<'a> {
 
         if let Ok(worksheet) = self.model.workbook.worksheet_mut(sheet) {
             if let Some(view) = worksheet.views.get_mut(&self.model.view_id) {
-                view.range = [row_start, column_start, target_row, target_column];
+                // the selection is extended from the selected cell, which is not
+                // necessarily the first corner of the current range
+                view.range = [selected_row, selected_column, target_row, target_column];
                 if new_top_row != top_row {
                     view.top_row = new_top_row;
                 }
